@@ -261,7 +261,7 @@ func VH_X3_footer() {
 
 func vHdrWords() int {
 	if vThorough() {
-		return 4 // 8..20 bytes
+		return 3 // 8..16 bytes
 	}
 	return 2 // 8, 12 bytes
 }
@@ -337,7 +337,7 @@ func VH_X3_indexBody() {
 	vUnwind(12)
 	maxLen := 10
 	if vThorough() {
-		maxLen = 13
+		maxLen = 11
 	}
 	n := vConcretize(int(vNondetU8("n")) % (maxLen + 1))
 	d := vNondetBytes("d", n)
